@@ -1,22 +1,25 @@
 """C15 - Grid orthogon decomposition finds exactly the single-trunk decompositions.
 
-Correspondence: 0/1 matrices (exhaustive for small shapes, random up to 10x10:
-single-trunk shapes, perturbed ones, holes, disconnected patterns, staircases,
-iid noise, ragged rows) go through the real `Strop`; `is_strop` and the
-rectangles of every instance (in the order `rectangles()` yields them) are
-compared exactly with the Gallina model (`Strop/Strop.v`) by vm_compute.
-Vertex lists of random simple orthogonal single-trunk polygons, in both
-orientations, go through `strop_decomposition` (compared exactly with the
-Gallina model `Strop/Polygon.v`: the returned [cx, cy, w, h] list must be the
-rectangle list of one of the model's instances), are loaded as a module and
-`create_stog` is called (direct oracle).  `is_point_inside_polygon` is
-compared with the model's even-odd rule on orthogonal and on slanted (also
-self-intersecting) vertex lists, at cell centres, vertices, edge points and
-generic points.
+Correspondence: 0/1 matrices (exhaustive for small shapes, random up to 10x10, LARGE grids built
+structurally with sides up to 40 / 70 and thin shapes with arms of 63..257 cells, matrices spelled as
+text with every separator str.split accepts) go through the real `Strop`; `is_strop` and the
+rectangles of every instance (in the order `rectangles()` yields them) are compared exactly with the
+Gallina model (`Strop/Strop.v`, `Strop/Text.v`) by vm_compute.
+Simple orthogonal polygons - random single-trunk ones and polygons traced from grid shapes, in every
+input form `strop_decomposition` accepts (Point with floats / ints, array rows, 2-D arrays of
+float64 / float32 / int64 / int32, mixed; both orientations, every start vertex, open / closed;
+dyadic, integer, decimal coordinates; negative, straddling 0, a corner exactly at (-1,-1), (0,0) ...
+listed last or first; large offsets) - are compared exactly with the Gallina model
+(`Strop/Polygon.v`, `Strop/PolygonForms.v`: the returned [cx, cy, w, h] list must be the rectangle
+list of one of the model's instances), are loaded as a module and `create_stog` is called (direct
+oracle).  `is_point_inside_polygon` is compared with the model's even-odd rule on orthogonal and on
+slanted (also self-intersecting) vertex lists, at cell centres, vertices, edge points and generic points.
 
-Direct oracle (independent of the implementation's method): brute force over
-every trunk rectangle for the existence of a decomposition; partition and
-abutment check of every offered instance; shoelace area of the polygon."""
+Direct oracle (independent of the implementation's method): existence of a decomposition by a
+polynomial test over row bands (cross-checked on small grids against the brute force over every
+trunk rectangle); partition and abutment check of every offered instance; for polygons shoelace
+area, sides on vertex coordinates, partition and abutment in grid cells, netlist loading +
+create_stog with the trunk first."""
 import itertools
 from fractions import Fraction as F
 
@@ -25,6 +28,7 @@ from harness.core import gbool, gstr, glist
 
 HEADER = """From Coq Require Import List Bool Arith String ZArith.
 From FrameModel Require Import Strop.Strop Cases.CmpC15.
+From Coq Require Import NArith.
 Import ListNotations.
 Open Scope string_scope."""
 
@@ -32,11 +36,20 @@ ASSUMPTIONS = [
     "the iteration order of the Python sets of candidate trunks is unspecified: instances are compared after sorting "
     "by trunk (rows.low, rows.high, columns.low, columns.high); the rectangles of each instance are compared in order",
     "polygon level: strop_decomposition and is_point_inside_polygon are compared exactly with the model Strop/Polygon.v "
-    "on dyadic coordinates (vertices on multiples of 1/4; slanted edges only between y levels a, a+h, a+2h with h a power "
-    "of two) so that every binary64 midpoint, difference, product and quotient is exact; the instance strop_decomposition "
-    "returns is the first in Python set order, so its output must equal the rectangle list of ONE of the model's instances; "
-    "netlist loading + create_stog: direct oracle only",
-    "the completeness theorem is a finite sweep: all 0/1 matrices of every shape with at most the stated number of cells",
+    "on dyadic / integer coordinates (slanted edges only between y levels a, a+h, a+2h with h a power of two; float32 "
+    "arrays only with mantissas that fit) so that every binary64 / binary32 midpoint, difference, product and quotient is "
+    "exact; on decimal coordinates the model computes with the exact values of the binary64 inputs (cells, instances and "
+    "rectangle order are not affected by rounding) and the four numbers of each rectangle are compared up to 2^-40; the "
+    "instance strop_decomposition returns is the first in Python set order, so its output must equal the rectangle list of "
+    "ONE of the model's instances; netlist loading + create_stog: direct oracle only",
+    "the netlist reader refuses negative numbers: a decomposition reaching below 0 is moved by a whole number of units "
+    "before it is loaded (exact for dyadic / integer coordinates; decimal polygons with negative coordinates are not loaded)",
+    "decimal polygons keep sides >= 0.3 and coordinates below 128, so binary64 rounding (a few 1e-14) stays below the "
+    "tolerance the netlist reader derives from the smallest side (1e-12 x side)",
+    "texts that are not a 0/1 grid (other characters, ragged rows, no row) are outside the property: compared with the "
+    "model only",
+    "the exhaustive sweep theorem is a finite sweep: all 0/1 matrices of every shape with at most the stated number of cells "
+    "(completeness for every size is C15_strop_iff)",
 ]
 
 
@@ -101,6 +114,57 @@ def has_decomp(rows):
                 reach |= 1 << b
         if reach == ones:
             return t
+    return None
+
+
+def has_decomp_fast(rows):
+    """Polynomial version of has_decomp (O(R^2 C)), for grids of any size.  A trunk rows r0..r1,
+    columns c0..c1 decomposes the grid iff (a) every row of the band r0..r1 is one unbroken run of
+    ones containing c0..c1 (its cells left and right of the trunk are then the west / east
+    branches), and (b) every one outside the band lies in a column of c0..c1 and the ones of that
+    column above (below) the band form one unbroken run ending at row r0-1 (starting at r1+1).
+    Given the band, the narrowest admissible column range is the span of the columns that have
+    ones outside the band.  Returns such a trunk or None."""
+    R, C = len(rows), len(rows[0])
+    m = [[ch == "1" for ch in row] for row in rows]
+    span = []                                   # per row: (first, last) if a single non-empty run
+    for row in m:
+        idx = [j for j, v in enumerate(row) if v]
+        span.append((idx[0], idx[-1]) if idx and idx[-1] - idx[0] + 1 == len(idx) else None)
+    above = [[0] * C for _ in range(R + 1)]     # above[i][j]: ones of column j in rows < i
+    for i in range(R):
+        for j in range(C):
+            above[i + 1][j] = above[i][j] + (1 if m[i][j] else 0)
+    up = [[0] * C for _ in range(R)]            # run of ones ending at (i, j), going up
+    down = [[0] * C for _ in range(R)]          # run of ones starting at (i, j), going down
+    for i in range(R):
+        for j in range(C):
+            if m[i][j]:
+                up[i][j] = 1 + (up[i - 1][j] if i else 0)
+    for i in range(R - 1, -1, -1):
+        for j in range(C):
+            if m[i][j]:
+                down[i][j] = 1 + (down[i + 1][j] if i + 1 < R else 0)
+    for r0 in range(R):
+        lo, hi = 0, C - 1
+        for r1 in range(r0, R):
+            if span[r1] is None:
+                break                           # every wider band contains this row too
+            lo, hi = max(lo, span[r1][0]), min(hi, span[r1][1])
+            if lo > hi:
+                break
+            ok, used = True, []
+            for j in range(C):
+                a = above[r0][j]
+                b = above[R][j] - above[r1 + 1][j]
+                if a == 0 and b == 0:
+                    continue
+                if not (lo <= j <= hi) or (a and up[r0 - 1][j] != a) or (b and down[r1 + 1][j] != b):
+                    ok = False
+                    break
+                used.append(j)
+            if ok:
+                return (r0, r1, used[0], used[-1]) if used else (r0, r1, lo, hi)
     return None
 
 
@@ -235,7 +299,281 @@ def gen_matrix_case(rng):
         k = rng.randrange(len(rows))
         rows[k] = rows[k] + "1" if rng.random() < 0.5 or len(rows[k]) == 1 else rows[k][:-1]
         return {"kind": "m", "gen": "ragged", "rows": rows}
-    return {"kind": "m", "gen": kind, "rows": to_rows(m)}
+    return {"kind": "m", "gen": kind, "rows": to_rows(m), "hist": rng.random() < 0.25}
+
+
+# ---- large grids (size thresholds 9/10, 15/16/17, 31/32/33) ----
+SPECIAL = [9, 10, 15, 16, 17, 31, 32, 33]
+MAXSIDE = 40
+
+
+def _reach(rng, room, special=None):
+    """Length of the longest branch on a side: 0, short, or one of the threshold lengths that fit."""
+    fit = [s for s in (special or SPECIAL) if s <= room]
+    k = rng.random()
+    if k < 0.2 or room <= 0:
+        return 0
+    if k < 0.45 or not fit:
+        return rng.randrange(1, min(room, 8) + 1)
+    return rng.choice(fit)
+
+
+def _profile(rng, n, reach, style):
+    """Heights (0..reach) of the n positions along one side of the trunk; the maximum is reach."""
+    if reach == 0 or n == 0:
+        return [0] * n
+    if style == "comb":          # teeth of distinct heights separated by gaps
+        hs = [0] * n
+        pool = list(range(1, reach + 1))
+        rng.shuffle(pool)
+        step = rng.choice([1, 2, 2, 3])
+        k = rng.randrange(0, step)
+        while k < n and pool:
+            hs[k] = pool.pop()
+            k += step
+    elif style == "ramp":        # staircase 1, 2, 3, ... (up, down or both)
+        a = rng.randrange(0, n)
+        hs = [max(0, reach - abs(i - a) * rng.choice([1, 1, 2])) for i in range(n)]
+        if rng.random() < 0.5:
+            hs = [reach - min(reach, abs(i - a)) if i >= a else 0 for i in range(n)]
+    elif style == "blocks":      # runs of equal height, also wide ones
+        hs, i = [], 0
+        while i < n:
+            w = rng.choice([1, 1, 2, 3, 5, 9, 15, 16, 17, 33])
+            h = rng.choice([0, 0, reach, rng.randrange(0, reach + 1), max(0, reach - 1)])
+            hs += [h] * w
+            i += w
+        hs = hs[:n]
+    elif style == "single":
+        a = rng.randrange(0, n)
+        b = rng.randrange(a, n)
+        hs = [reach if a <= i <= b else 0 for i in range(n)]
+    else:                        # full
+        hs = [reach] * n
+    if max(hs) < reach:
+        hs[rng.randrange(n)] = reach
+    return hs
+
+
+def gen_large_matrix(rng, MAXSIDE=MAXSIDE, special=None):
+    """A single-trunk shape with sides up to MAXSIDE (40): trunk + four side profiles, then possibly a
+    perturbation (near miss).  Returns (matrix, description)."""
+    nN = _reach(rng, MAXSIDE - 6, special)
+    nS = _reach(rng, MAXSIDE - 1 - nN, special)
+    nW = _reach(rng, MAXSIDE - 6, special)
+    nE = _reach(rng, MAXSIDE - 1 - nW, special)
+    th = rng.choice([1, 1, 2, 3, 5, 9, 16, 17, 33])
+    tw = rng.choice([1, 1, 2, 3, 5, 9, 16, 17, 33])
+    th = max(1, min(th, MAXSIDE - nN - nS))
+    tw = max(1, min(tw, MAXSIDE - nW - nE))
+    padr = [rng.choice([0, 0, 1]) if nN + nS + th < MAXSIDE - 1 else 0 for _ in range(2)]
+    padc = [rng.choice([0, 0, 1]) if nW + nE + tw < MAXSIDE - 1 else 0 for _ in range(2)]
+    R = padr[0] + nN + th + nS + padr[1]
+    C = padc[0] + nW + tw + nE + padc[1]
+    r0, c0 = padr[0] + nN, padc[0] + nW
+    r1, c1 = r0 + th - 1, c0 + tw - 1
+    style = rng.choice(["comb", "comb", "ramp", "blocks", "blocks", "single", "full", "mixed"])
+    st = lambda: rng.choice(["comb", "ramp", "blocks", "single", "full"]) if style == "mixed" else style
+    m = [[0] * C for _ in range(R)]
+    for i in range(r0, r1 + 1):
+        for j in range(c0, c1 + 1):
+            m[i][j] = 1
+    for j, h in zip(range(c0, c1 + 1), _profile(rng, tw, nN, st())):
+        for i in range(r0 - h, r0):
+            m[i][j] = 1
+    for j, h in zip(range(c0, c1 + 1), _profile(rng, tw, nS, st())):
+        for i in range(r1 + 1, r1 + 1 + h):
+            m[i][j] = 1
+    for i, h in zip(range(r0, r1 + 1), _profile(rng, th, nW, st())):
+        for j in range(c0 - h, c0):
+            m[i][j] = 1
+    for i, h in zip(range(r0, r1 + 1), _profile(rng, th, nE, st())):
+        for j in range(c1 + 1, c1 + 1 + h):
+            m[i][j] = 1
+    pert = rng.choice(["none", "none", "none", "hole", "tip", "corner", "widen", "notch", "flip", "far"])
+    ones = [(i, j) for i in range(R) for j in range(C) if m[i][j]]
+    zeros = [(i, j) for i in range(R) for j in range(C) if not m[i][j]]
+    outside = [(i, j) for (i, j) in ones if not (r0 <= i <= r1 and c0 <= j <= c1)]
+    if pert == "hole" and outside:           # a missing cell inside a branch: what lies beyond is cut off
+        i, j = rng.choice(outside)
+        m[i][j] = 0
+    elif pert == "tip" and outside:          # the outermost cell of a branch removed (16 -> 15, 33 -> 32 ...)
+        tips = [(i, j) for (i, j) in outside
+                if (j >= c0 and j <= c1 and (i < r0 and (i == 0 or not m[i - 1][j]) or i > r1 and (i == R - 1 or not m[i + 1][j])))
+                or (i >= r0 and i <= r1 and (j < c0 and (j == 0 or not m[i][j - 1]) or j > c1 and (j == C - 1 or not m[i][j + 1])))]
+        if tips:
+            i, j = rng.choice(tips)
+            m[i][j] = 0
+    elif pert == "corner":                   # a cell in a corner quadrant of the trunk
+        quad = [(i, j) for (i, j) in zeros if (i < r0 or i > r1) and (j < c0 or j > c1)]
+        near = [(i, j) for (i, j) in quad if i in (r0 - 1, r1 + 1) and j in (c0 - 1, c1 + 1)]
+        pick = near if near and rng.random() < 0.5 else quad
+        if pick:
+            i, j = rng.choice(pick)
+            m[i][j] = 1
+    elif pert == "widen":                    # a cell beside a branch (wider than the trunk / a second arm)
+        cand = [(i, j) for (i, j) in zeros
+                if any(0 <= i + di < R and 0 <= j + dj < C and m[i + di][j + dj] and not (r0 <= i + di <= r1 and c0 <= j + dj <= c1)
+                       for di, dj in ((0, 1), (0, -1), (1, 0), (-1, 0)))]
+        if cand:
+            i, j = rng.choice(cand)
+            m[i][j] = 1
+    elif pert == "notch":                    # a cell of the trunk removed
+        i, j = rng.randrange(r0, r1 + 1), rng.randrange(c0, c1 + 1)
+        m[i][j] = 0
+    elif pert == "flip":
+        for _ in range(rng.choice([1, 2, 3])):
+            i, j = rng.randrange(R), rng.randrange(C)
+            m[i][j] = 1 - m[i][j]
+    elif pert == "far" and zeros:
+        i, j = rng.choice(zeros)
+        m[i][j] = 1
+    return m, f"large/{style}/{pert}"
+
+
+LONG = [63, 64, 65, 100, 127, 128, 129, 255, 256, 257]
+
+
+def gen_long_case(rng):
+    """Thin shapes with one very long arm (63 .. 257 cells; the next size thresholds): an L / T / I with a trunk of
+    at most 3 x 3 cells, the long arm on one side, short arms (at most 5) elsewhere; left alone, the tip or an inner
+    cell of the long arm removed, or a cell added beside it."""
+    L = rng.choice(LONG)
+    th, tw = rng.choice([1, 1, 2, 3]), rng.choice([1, 1, 2, 3])
+    short = lambda: rng.choice([0, 0, 1, 2, 5])
+    nN, nS, nW, nE = L, rng.choice([0, 0, 1, 16, 33]), short(), short()
+    R, C = nN + th + nS, nW + tw + nE
+    r0, c0 = nN, nW
+    m = [[0] * C for _ in range(R)]
+    for i in range(r0, r0 + th):
+        for j in range(c0, c0 + tw):
+            m[i][j] = 1
+    a = rng.randrange(c0, c0 + tw)
+    b = rng.randrange(a, c0 + tw)
+    for j in range(a, b + 1):                # the long arm (north), 1 .. tw wide
+        for i in range(0, r0):
+            m[i][j] = 1
+    for j in range(c0, c0 + tw):
+        if rng.random() < 0.7:
+            for i in range(r0 + th, r0 + th + rng.choice([nS, nS, max(0, nS - 1)])):
+                m[i][j] = 1
+    for i in range(r0, r0 + th):
+        if rng.random() < 0.7:
+            for j in range(c0 - nW, c0):
+                m[i][j] = 1
+        if rng.random() < 0.7:
+            for j in range(c0 + tw, c0 + tw + nE):
+                m[i][j] = 1
+    pert = rng.choice(["none", "none", "tip", "hole", "beside"])
+    if pert == "tip":
+        m[0][a] = 0
+    elif pert == "hole":
+        m[rng.randrange(1, r0)][rng.randrange(a, b + 1)] = 0
+    elif pert == "beside" and C > 1:
+        i = rng.randrange(0, r0)
+        j = a - 1 if a > 0 and (b == C - 1 or rng.random() < 0.5) else min(C - 1, b + 1)
+        m[i][j] = 1
+    k = rng.randrange(4)                     # the four orientations
+    if k & 1:
+        m = m[::-1]
+    if k & 2:
+        m = [list(col) for col in zip(*m)]
+    return {"kind": "m", "gen": f"large/long{L}/{pert}", "rows": to_rows(m), "hist": rng.random() < 0.5}
+
+
+def gen_huge_case(rng):
+    """The large generator with sides up to 70 and branch lengths 63, 64, 65."""
+    m, tag = gen_large_matrix(rng, 70, [63, 64, 65, 33, 17])
+    if rng.random() < 0.5:
+        m = [list(col) for col in zip(*m)]
+    return {"kind": "m", "gen": tag, "rows": to_rows(m), "hist": rng.random() < 0.5}
+
+
+def gen_large_case(rng):
+    m, tag = gen_large_matrix(rng)
+    if rng.random() < 0.5:       # the code treats rows and columns by two different routes (transposed table)
+        m = [list(col) for col in zip(*m)]
+    return {"kind": "m", "gen": tag, "rows": to_rows(m), "hist": rng.random() < 0.5}
+
+
+# ---- matrices as text ----
+# str.isspace, the separators of str.split() without argument (an independent statement of them)
+SPACES = [9, 10, 11, 12, 13, 28, 29, 30, 31, 32, 133, 160, 5760] + list(range(8192, 8203)) + [8232, 8233, 8239, 8287, 12288]
+ASCII_SPACES = [32, 32, 32, 10, 10, 9, 13, 11, 12]
+
+
+def gen_text_case(rng):
+    """A matrix spelled as text: rows separated by any non-empty whitespace, optional whitespace before the first
+    and after the last row; sometimes not a 0/1 matrix at all (other characters, no row: refusal expected)."""
+    k = rng.random()
+    if k < 0.1:
+        m, _ = gen_large_matrix(rng, rng.choice([12, 18, 40]))
+    elif k < 0.6:
+        R, C = rng.randrange(1, 9), rng.randrange(1, 9)
+        m = gen_strop_matrix(rng, R, C)
+        if rng.random() < 0.4:
+            i, j = rng.randrange(R), rng.randrange(C)
+            m[i][j] = 1 - m[i][j]
+    else:
+        R, C = rng.randrange(1, 5), rng.randrange(1, 5)
+        m = [[rng.randrange(2) for _ in range(C)] for _ in range(R)]
+    rows = to_rows(m)
+    style = rng.choice(["space", "newline", "nl-each", "crlf", "tab", "ascii", "ascii", "unicode", "unicode"])
+
+    def sep(empty_ok=False):
+        if style == "space":
+            s = [32]
+        elif style in ("newline", "nl-each"):
+            s = [10]
+        elif style == "crlf":
+            s = [13, 10]
+        elif style == "tab":
+            s = [9]
+        elif style == "ascii":
+            s = [rng.choice(ASCII_SPACES) for _ in range(rng.choice([1, 1, 2, 3]))]
+        else:
+            s = [rng.choice(SPACES) for _ in range(rng.choice([1, 1, 2]))]
+        return [] if empty_ok and rng.random() < 0.5 else s
+    text = sep(True) if style in ("ascii", "unicode") else []
+    for i, row in enumerate(rows):
+        text += [ord(ch) for ch in row]
+        last = i == len(rows) - 1
+        if not last:
+            text += sep()
+        elif style == "nl-each":       # what strop_decomposition writes: every row followed by a newline
+            text += [10]
+        elif style in ("ascii", "unicode", "crlf"):
+            text += sep(True)
+    bad = None
+    if rng.random() < 0.12:
+        bad = rng.choice(["char", "char", "empty", "blank", "ragged"])
+        if bad == "char":              # one character that is neither '0' nor '1' (also digits of other scripts)
+            pos = [i for i, c in enumerate(text) if c in (48, 49)]
+            text[rng.choice(pos)] = rng.choice([50, 57, 47, 58, 45, 46, 88, 120, 79, 108, 0, 127, 178, 185, 1633, 65297, 8203])
+        elif bad == "empty":
+            text = []
+        elif bad == "blank":
+            text = [rng.choice(SPACES) for _ in range(rng.randrange(1, 4))]
+        else:
+            pos = [i for i, c in enumerate(text) if c in (48, 49)]
+            i = rng.choice(pos)
+            text = text[:i] + text[i + 1:] if rng.random() < 0.5 and len(pos) > 1 else text[:i] + [48] + text[i:]
+    return {"kind": "t", "gen": style + ("/" + bad if bad else ""), "text": text}
+
+
+def text_rows(text):
+    """Rows of a text by the harness' own splitter, or None if it is not a 0/1 matrix."""
+    rows, cur = [], []
+    for c in text + [32]:
+        if c in SPACES:
+            if cur:
+                rows.append(cur)
+            cur = []
+        else:
+            cur.append(c)
+    if not rows or any(c not in (48, 49) for r in rows for c in r) or len(set(len(r) for r in rows)) != 1:
+        return None
+    return ["".join(chr(c) for c in r) for r in rows]
 
 
 def exhaustive_cases(maxcells, maxside):
@@ -275,7 +613,7 @@ def gen_poly_case(rng):
             sides[s] = []
     return {"kind": "poly", "x0": x0, "x1": x1, "y0": y0, "y1": y1, "N": sides["N"], "S": sides["S"],
             "E": sides["E"], "W": sides["W"], "rev": rng.random() < 0.5, "rot": rng.randrange(0, 50),
-            "repr": rng.choice(["point", "ndarray"]), "closed": rng.random() < 0.2}
+            "repr": rng.choice(FORMS_ANY + FORMS_F32), "closed": rng.random() < 0.2, "twice": rng.random() < 0.2}
 
 
 def poly_vertices(c):
@@ -309,6 +647,201 @@ def poly_vertices(c):
     if c.get("closed"):
         pts.append(pts[0])
     return pts
+
+
+# ---- polygons traced from a grid shape, in every input form ----
+FORMS_ANY = ["point", "rows", "array_f64", "mixed"]          # any binary64 coordinates
+FORMS_F32 = ["array_f32", "rows_f32"]                         # short dyadic mantissas only
+FORMS_INT = ["point_int", "array_i64", "array_i32", "rows_i64"]   # integer coordinates only
+PADDING_LIKE = [(-1, -1), (-1, -1), (-1, -1), (0, 0), (0, 0), (-1, 0), (0, -1), (1, 1), (-1, 1), (1, -1), (-2, -2)]
+
+
+def outline(m):
+    """Vertices (column line, row line) of the boundary of the true cells of m, or None unless the true
+    cells are one 4-connected piece without holes and without two cells touching only at a corner
+    (then the boundary is one simple closed polyline)."""
+    R, C = len(m), len(m[0])
+    get = lambda i, j: 0 <= i < R and 0 <= j < C and m[i][j]
+    nxt = {}
+    n = 0
+    for i in range(R):
+        for j in range(C):
+            if not m[i][j]:
+                continue
+            for free, a, b in ((not get(i - 1, j), (j, i), (j + 1, i)),
+                               (not get(i, j + 1), (j + 1, i), (j + 1, i + 1)),
+                               (not get(i + 1, j), (j + 1, i + 1), (j, i + 1)),
+                               (not get(i, j - 1), (j, i + 1), (j, i))):
+                if free:
+                    if a in nxt:
+                        return None          # two boundary edges leave one point: cells meeting at a corner
+                    nxt[a] = b
+                    n += 1
+    if n == 0:
+        return None
+    start = next(iter(nxt))
+    pts, p = [], start
+    while True:
+        pts.append(p)
+        p = nxt[p]
+        if p == start:
+            break
+    if len(pts) != n:
+        return None                          # several loops: holes or several pieces
+    out = []
+    for k, p in enumerate(pts):
+        a, b = pts[k - 1], pts[(k + 1) % len(pts)]
+        if not ((a[0] == p[0] == b[0]) or (a[1] == p[1] == b[1])):
+            out.append(p)
+    return out
+
+
+def _widths(rng, n, mode):
+    if mode == "int":
+        return [F(rng.choice([1, 1, 2, 3, 5])) for _ in range(n)]
+    if mode == "decimal":     # sides of at least 0.3 and coordinates below 128: binary64 rounding stays far below
+        #                        the tolerance the netlist reader derives from the smallest side (1e-12 of it)
+        return [F(rng.choice([3, 7, 11, 13, 25]), 10) if rng.random() < 0.7 else F(rng.randrange(30, 400), 100)
+                for _ in range(n)]
+    return [F(rng.choice([1, 2, 3, 4, 5, 8, 13]), rng.choice([1, 2, 4])) for _ in range(n)]
+
+
+def gen_gpoly_case(rng, big=False):
+    """A simple orthogonal polygon traced from a grid shape (single-trunk shapes and near misses, so that
+    both outcomes occur), placed on chosen coordinates and handed over in one of the accepted forms."""
+    while True:
+        if big:
+            m, tag = gen_large_matrix(rng, rng.choice([18, 20, 24]))
+        else:
+            R, C = rng.randrange(1, 9), rng.randrange(1, 9)
+            m = gen_strop_matrix(rng, R, C)
+            tag = "strop"
+            if rng.random() < 0.3:
+                for _ in range(rng.choice([1, 1, 2])):
+                    i, j = rng.randrange(R), rng.randrange(C)
+                    m[i][j] = 1 - m[i][j]
+                tag = "perturbed"
+        pts = outline(m)
+        if pts is not None:
+            break
+    R, C = len(m), len(m[0])
+    mode = rng.choice(["dyadic", "dyadic", "int", "int", "decimal"])
+    ws, hs = _widths(rng, C, mode), _widths(rng, R, mode)
+    place = rng.choice(["anchor", "anchor", "negative", "straddle", "positive", "bigoffset"])
+    if mode == "decimal" and place in ("bigoffset",):
+        place = "positive"
+    unit = {"int": 1, "dyadic": 4, "decimal": 10}[mode]
+    span = 20 if mode == "decimal" else 40
+    if place == "positive":
+        ox, oy = F(rng.randrange(0, span * unit), unit), F(rng.randrange(0, span * unit), unit)
+    elif place == "bigoffset":
+        ox = F(rng.choice([2 ** 16, -2 ** 16, 10 ** 5, 2 ** 20, -2 ** 20, 10 ** 6, -10 ** 6]))
+        oy = F(rng.choice([2 ** 16, -2 ** 16, 10 ** 5, 2 ** 20, -2 ** 20, 10 ** 6, 0]))
+    else:
+        ox, oy = F(rng.randrange(-span * unit, 0), unit), F(rng.randrange(-span * unit, 0), unit)
+    xs = [ox]
+    for w in ws:
+        xs.append(xs[-1] + w)
+    ys = [oy]
+    for h in hs:
+        ys.append(ys[-1] + h)
+    ys.reverse()                      # row 0 is the top row
+    anchor = None
+    if place == "straddle":           # a grid line exactly at 0 in each axis
+        dx, dy = rng.choice(xs), rng.choice(ys)
+        xs, ys = [x - dx for x in xs], [y - dy for y in ys]
+    elif place == "anchor":           # one corner of the polygon exactly at a padding-like point
+        k = rng.randrange(len(pts))
+        tx, ty = rng.choice(PADDING_LIKE)
+        dx, dy = xs[pts[k][0]] - tx, ys[pts[k][1]] - ty
+        xs, ys = [x - dx for x in xs], [y - dy for y in ys]
+        anchor = [F(tx), F(ty)]
+    allint = all(v.denominator == 1 for v in xs + ys)
+    short = all(abs(v) < 2 ** 17 and v.denominator in (1, 2, 4) for v in xs + ys)
+    forms = list(FORMS_ANY) * 2
+    if mode != "decimal" and short:
+        forms += FORMS_F32
+    if allint and all(abs(v) < 2 ** 30 for v in xs + ys):
+        forms += FORMS_INT * 2
+    where = rng.choice(["last", "last", "first", "any"]) if anchor is not None else "any"
+    return {"kind": "gpoly", "gen": tag, "mode": mode, "place": place, "rows": to_rows(m), "xs": xs, "ys": ys,
+            "rev": rng.random() < 0.5, "anchor": anchor, "where": where, "rot": rng.randrange(0, 200),
+            "closed": rng.random() < 0.15, "repr": rng.choice(forms), "twice": rng.random() < 0.2}
+
+
+def gen_probe_cases(rng, npoly):
+    """Systematic part of the polygon stream: for npoly small integer polygons, EVERY corner in turn is put
+    exactly on a padding-like point ((-1,-1), (0,0), (-1,0), (0,-1)) and listed last or first, the vertices
+    given as a 2-D array (the form FloorSet uses, where rows of -1 are padding) or in another form."""
+    for _ in range(npoly):
+        while True:
+            R, C = rng.randrange(1, 5), rng.randrange(1, 5)
+            m = gen_strop_matrix(rng, R, C)
+            pts = outline(m)
+            if pts is not None and len(pts) <= 12:
+                break
+        ws, hs = _widths(rng, C, "int"), _widths(rng, R, "int")
+        xs0, ys0 = [F(0)], [F(0)]
+        for w in ws:
+            xs0.append(xs0[-1] + w)
+        for h in hs:
+            ys0.append(ys0[-1] + h)
+        ys0.reverse()
+        rev = rng.random() < 0.5
+        for k in range(len(pts)):
+            for tx, ty in ((-1, -1), (0, 0), (-1, 0), (0, -1)):
+                dx, dy = xs0[pts[k][0]] - tx, ys0[pts[k][1]] - ty
+                for where in ("last", "first"):
+                    yield {"kind": "gpoly", "gen": "probe", "mode": "int", "place": "anchor", "rows": to_rows(m),
+                           "xs": [x - dx for x in xs0], "ys": [y - dy for y in ys0], "rev": rev, "anchor": [F(tx), F(ty)],
+                           "where": where, "rot": 0, "closed": False, "twice": False,
+                           "repr": rng.choice(["array_f64", "array_i64", "array_f32", "array_i32", "rows", "point_int"])}
+
+
+def gpoly_vertices(c):
+    m = [[ch == "1" for ch in row] for row in c["rows"]]
+    idx = outline(m)
+    pts = [(c["xs"][a], c["ys"][b]) for a, b in idx]
+    anchor = tuple(c["anchor"]) if c.get("anchor") is not None else None      # a corner, by its coordinates
+    if c.get("rev"):
+        pts.reverse()
+    k = c.get("rot", 0) % len(pts)
+    if anchor in pts and c.get("where") in ("first", "last"):
+        k = pts.index(anchor) + (1 if c["where"] == "last" else 0)
+    pts = pts[k:] + pts[:k]
+    if c.get("closed"):
+        pts.append(pts[0])
+    return pts
+
+
+def make_vertices(pts, form):
+    """The vertex list in the requested input form (pts: pairs of Fractions)."""
+    import numpy as np
+    from frame.geometry.geometry import Point
+    fl = [[float(x), float(y)] for x, y in pts]
+    if form == "point":
+        return [Point(x, y) for x, y in fl]
+    if form == "point_int":
+        return [Point(int(x), int(y)) for x, y in pts]
+    if form == "rows":
+        return list(np.array(fl))
+    if form == "rows_f32":
+        return list(np.array(fl, dtype=np.float32))
+    if form == "rows_i64":
+        return list(np.array([[int(x), int(y)] for x, y in pts], dtype=np.int64))
+    if form == "mixed":
+        return [Point(x, y) if k % 2 else np.array([x, y]) for k, (x, y) in enumerate(fl)]
+    if form == "array_f64":
+        return np.array(fl)
+    if form == "array_f32":
+        return np.array(fl, dtype=np.float32)
+    if form == "array_i64":
+        return np.array([[int(x), int(y)] for x, y in pts], dtype=np.int64)
+    if form == "array_i32":
+        return np.array([[int(x), int(y)] for x, y in pts], dtype=np.int32)
+    if form == "ndarray":             # older corpus / replay files
+        return list(np.array(fl))
+    raise ValueError(form)
 
 
 def cell_centres(pts):
@@ -347,7 +880,7 @@ def gen_inside_case(rng):
         pts.append((F(2 * rng.randrange(int(min(xs) * 32) - 16, int(max(xs) * 32) + 16) + 1, 64),
                     F(2 * rng.randrange(int(min(ys) * 32) - 16, int(max(ys) * 32) + 16) + 1, 64)))
     return {"kind": "inside", "sub": sub, "vs": [list(v) for v in vs], "pts": [list(p) for p in pts],
-            "repr": rng.choice(["point", "ndarray"])}
+            "repr": rng.choice(FORMS_ANY + FORMS_F32)}
 
 
 def parity_up(p, vs):
@@ -386,48 +919,81 @@ def shoelace(pts):
 def run_impl(case):
     from frame.geometry.geometry import Rectangle
     Rectangle.undefine_epsilon()
-    if case["kind"] == "m":
+    if case["kind"] in ("m", "t"):
         from tools.floorset_parser.floor_set_manager.strop import Strop
         try:
-            s = Strop(" ".join(case["rows"]))
+            s = Strop(" ".join(case["rows"]) if case["kind"] == "m" else "".join(chr(c) for c in case["text"]))
         except AssertionError as e:
             return {"v": None, "why": str(e)}
-        inst = []
-        for t in s.instances():
-            inst.append([[r.rows.low, r.rows.high, r.columns.low, r.columns.high] for r in t.rectangles()])
-        inst.sort(key=lambda rs: rs[0] if rs else [])
-        return {"v": inst, "is": bool(s.is_strop)}
+        def listing():
+            inst = [[[r.rows.low, r.rows.high, r.columns.low, r.columns.high] for r in t.rectangles()]
+                    for t in s.instances()]
+            inst.sort(key=lambda rs: rs[0] if rs else [])
+            return inst
+        obs = {}
+        if case.get("hist"):      # pre-exercised object: list, print every instance, list again
+            obs["v0"] = listing()
+            for t in s.instances():
+                str(t)
+                list(t.rectangles("B"))
+        obs["v"] = listing()
+        obs["is"] = bool(s.is_strop)
+        return obs
     import numpy as np
     from frame.geometry.geometry import Point
     from tools.floorset_parser.floor_set_manager.utils.utils import strop_decomposition, is_point_inside_polygon
     if case["kind"] == "inside":
-        if case["repr"] == "point":
-            verts = [Point(float(x), float(y)) for x, y in case["vs"]]
-        else:
-            verts = list(np.array([[float(x), float(y)] for x, y in case["vs"]]))
+        verts = make_vertices(case["vs"], case["repr"])
         return {"in": [bool(is_point_inside_polygon(Point(float(x), float(y)), verts)) for x, y in case["pts"]]}
-    pts = poly_vertices(case)
-    if case["repr"] == "point":
-        verts = [Point(float(x), float(y)) for x, y in pts]
+    if case["kind"] == "gpoly":
+        pts = gpoly_vertices(case)
     else:
-        verts = list(np.array([[float(x), float(y)] for x, y in pts]))
+        pts = poly_vertices(case)
+    verts = make_vertices(pts, case["repr"])
     try:
         rects = strop_decomposition(verts)
     except AssertionError as e:
         return {"rects": None, "why": str(e)[:200]}
     rects = [[float(v) for v in r] for r in rects]
-    # "loaded as a module": through the netlist reader, which defines the tolerances from the
-    # smallest side, refuses overlapping rectangles of a hard module and calls create_stog
+    obs = {"rects": rects}
+    if case.get("twice"):     # the same vertex object once more: the answer may not depend on an earlier call
+        try:
+            obs["again"] = [[float(v) for v in r] for r in strop_decomposition(verts)]
+        except AssertionError as e:
+            obs["again"] = None
+    obs.update(load_as_module(rects))
+    return obs
+
+
+def load_as_module(rects):
+    """"loaded as a module": through the netlist reader, which defines the tolerances from the smallest
+    side, refuses overlapping rectangles of a hard module and calls create_stog.  The reader refuses
+    negative numbers, so a decomposition reaching below 0 is first moved by a whole number of units
+    (exact in binary64 for the coordinates generated here; if it were not, the load test is skipped)."""
     from frame.netlist.netlist import Netlist
-    txt = "Modules: {M0: {rectangles: [" + ", ".join("[" + ", ".join(repr(v) for v in r) + "]" for r in rects) + \
+    fx = [[F(*v.as_integer_ratio()) for v in r] for r in rects]
+    lowx = min([r[0] - r[2] / 2 for r in fx] + [0])
+    lowy = min([r[1] - r[3] / 2 for r in fx] + [0])
+    dx, dy = -(lowx.numerator // lowx.denominator), -(lowy.numerator // lowy.denominator)
+    moved = [[float(r[0] + dx), float(r[1] + dy), float(r[2]), float(r[3])] for r in fx]
+    if any(F(*m[0].as_integer_ratio()) != r[0] + dx or F(*m[1].as_integer_ratio()) != r[1] + dy
+           for m, r in zip(moved, fx)):
+        return {"stog": None, "locs": [], "skipped": "translation not exact"}
+    if any(v < 0 for r in moved for v in r):
+        return {"stog": None, "locs": [], "skipped": "negative extent"}
+    txt = "Modules: {M0: {rectangles: [" + ", ".join("[" + ", ".join(repr(v) for v in r) + "]" for r in moved) + \
           "], hard: true}}\nNets: []\n"
     try:
         m = Netlist(txt).get_module("M0")
     except AssertionError as e:
-        return {"rects": rects, "stog": False, "locs": [], "load_error": str(e)[:200]}
+        return {"stog": False, "locs": [], "load_error": str(e)[:200]}
     ok = m.create_stog()
-    return {"rects": rects, "stog": bool(ok) and bool(m.has_stog), "locs": [r.location.name for r in m.rectangles],
-            "after": [[r.center.x, r.center.y, r.shape.w, r.shape.h] for r in m.rectangles]}
+    from frame.geometry.geometry import Rectangle
+    eps = Rectangle.distance_epsilon()
+    sides = [v for r in moved for v in (r[0] - r[2] / 2, r[0] + r[2] / 2, r[1] - r[3] / 2, r[1] + r[3] / 2)]
+    return {"stog": bool(ok) and bool(m.has_stog), "locs": [r.location.name for r in m.rectangles],
+            "after": [[r.center.x, r.center.y, r.shape.w, r.shape.h] for r in m.rectangles], "moved": [int(dx), int(dy)],
+            "eps": eps, "absorbed": any(v - eps == v or v + eps == v for v in sides)}
 
 
 def gqq(x):
@@ -440,23 +1006,44 @@ def gpts(pts):
     return glist([f"({gqq(x)}, {gqq(y)})" for x, y in pts])
 
 
+def grects(rects):
+    return glist(['(' + ', '.join(gqq(v) for v in r) + ')' for r in rects])
+
+
 def to_coq(case, obs):
-    if case["kind"] == "poly":
-        vs = gpts(poly_vertices(case))
-        if obs["rects"] is None:
-            return f"ckp {vs} None"
-        return f"ckp {vs} (Some {glist(['(' + ', '.join(gqq(v) for v in r) + ')' for r in obs['rects']])})"
+    if case["kind"] in ("poly", "gpoly"):
+        pts = gpoly_vertices(case) if case["kind"] == "gpoly" else poly_vertices(case)
+        form = case.get("repr", "point")
+        isp = lambda k: form in ("point", "point_int") or (form == "mixed" and k % 2 == 1)
+        vs = glist([f"{'vp' if isp(k) else 'vr'} {gqq(fexact(x))} {gqq(fexact(y))}" for k, (x, y) in enumerate(pts)])
+        # decimal coordinates: the model computes with the exact values of the binary64 inputs; the cells, the
+        # instances and the order of the rectangles are not affected by rounding, the four numbers of a
+        # rectangle are (a sum or a difference of two inputs), so they are compared up to 2^-40
+        ck = "ckf" if case.get("mode") != "decimal" else "ckfc (q 1 1099511627776)"
+        out = []
+        for which in ("rects", "again"):
+            if which in obs:
+                out.append(f"{ck} {vs} " + ("None" if obs[which] is None else f"(Some {grects(obs[which])})"))
+        return " && ".join(f"({e})" for e in out)
     if case["kind"] == "inside":
         pbs = glist([f"(({gqq(x)}, {gqq(y)}), {gbool(b)})" for (x, y), b in zip(case["pts"], obs["in"])])
         return f"cki {gpts(case['vs'])} {pbs}"
-    rows = glist([gstr(r) for r in case["rows"]])
+    if case["kind"] == "t":
+        ck, rows = "ckt", glist([str(int(c)) for c in case["text"]]) + "%N"
+    else:
+        ck, rows = "ck", glist([gstr(r) for r in case["rows"]])
     if obs["v"] is None:
-        return f"ck {rows} None false"
+        return f"{ck} {rows} None false"
     exp = glist([glist([f"r {a} {b} {c} {d}" for a, b, c, d in rs]) for rs in obs["v"]])
-    return f"ck {rows} (Some {exp}) {gbool(obs['is'])}"
+    return f"{ck} {rows} (Some {exp}) {gbool(obs['is'])}"
 
 
 def oracle(case, obs):
+    if case["kind"] == "t":
+        rows = text_rows(case["text"])
+        if rows is None:
+            return None       # not a 0/1 grid: outside the property (the model still says what the code does)
+        return oracle({"kind": "m", "rows": rows}, obs)
     if case["kind"] == "m":
         rows = case["rows"]
         wellformed = len(rows) > 0 and len(rows[0]) > 0 and all(len(r) == len(rows[0]) for r in rows)
@@ -464,14 +1051,16 @@ def oracle(case, obs):
             return None if obs["v"] is None else "a ragged matrix was accepted"
         if obs["v"] is None:
             return f"a well-formed matrix was refused: {obs.get('why')}"
-        t = has_decomp(rows)
+        t = has_decomp_fast(rows)
+        if len(rows) * len(rows[0]) <= 36 and (has_decomp(rows) is None) != (t is None):
+            raise RuntimeError("the two existence oracles disagree")      # a defect of the harness, not of the code
         if obs["is"] and t is None:
             return "is_strop is True but no single-trunk decomposition exists"
         if not obs["is"] and t is not None:
             return f"is_strop is False but a single-trunk decomposition exists (trunk rows {t[0]}..{t[1]}, columns {t[2]}..{t[3]})"
         if obs["is"] != (len(obs["v"]) > 0):
             return "is_strop disagrees with the list of instances"
-        for rs in obs["v"]:
+        for rs in obs["v"] + (obs["v0"] if obs.get("v0", obs["v"]) != obs["v"] else []):
             p = check_instance(rows, [tuple(x) for x in rs])
             if p:
                 return f"offered instance with trunk {rs[0] if rs else None}: {p}"
@@ -483,42 +1072,102 @@ def oracle(case, obs):
             if want is not None and want != got:
                 return f"point {tuple(map(str, p))}: is_point_inside_polygon says {got}, an upward ray crosses the outline an {'odd' if want else 'even'} number of times"
         return None
-    # polygon
-    pts = poly_vertices(case)
+    return polygon_oracle(case, obs)
+
+
+def fexact(v):
+    """The exact value of the binary64 number the implementation receives for coordinate v."""
+    return F(*float(v).as_integer_ratio())
+
+
+def raster(pts):
+    """Grid lines and 0/1 rows (top row first) of a polygon, by an upward ray from every cell centre of
+    the grid of its vertex coordinates (the code shoots its ray to the right)."""
+    xs = sorted(set(x for x, _ in pts))
+    ys = sorted(set(y for _, y in pts), reverse=True)
+    rows = ["".join("1" if parity_up(((a + b) / 2, (c + d) / 2), pts) else "0" for a, b in zip(xs, xs[1:]))
+            for c, d in zip(ys, ys[1:])]
+    return xs, ys, rows
+
+
+def polygon_oracle(case, obs):
+    exact = case.get("mode") != "decimal"
+    pts = gpoly_vertices(case) if case["kind"] == "gpoly" else poly_vertices(case)
     if case.get("closed"):
         pts = pts[:-1]
+    pts = [(fexact(x), fexact(y)) for x, y in pts]
+    if case["kind"] == "gpoly":       # the shape the polygon was traced from tells which cells are inside
+        X, Y, rows = [fexact(x) for x in case["xs"]], [fexact(y) for y in case["ys"]], case["rows"]
+    else:
+        X, Y, rows = raster(pts)
+    exists = has_decomp_fast(rows)
+    scale = max([1] + [abs(v) for v in X + Y])
+    tol = 0 if exact else scale * F(1, 10 ** 9)
+
+    def line(lines, v):
+        k = min(range(len(lines)), key=lambda i: abs(lines[i] - v))
+        return k if abs(lines[k] - v) <= tol else None
+    for which in ("rects", "again"):
+        if which not in obs:
+            continue
+        rects = obs[which]
+        tag = "" if which == "rects" else " (second call with the same vertex object)"
+        if rects is None:
+            if exists is not None:
+                return f"a single-trunk polygon was not decomposed{tag}: {obs.get('why')}"
+            continue
+        if not rects:
+            return f"empty decomposition{tag}"
+        if any(r[2] <= 0 or r[3] <= 0 for r in rects):
+            return f"a rectangle of the decomposition has no extent{tag}"
+        area = sum(fexact(r[2]) * fexact(r[3]) for r in rects)
+        want = shoelace(pts)
+        if abs(area - want) > tol * scale:
+            return f"rectangles have area {float(area)}, the polygon has area {float(want)}{tag}"
+        idx = []
+        for r in rects:
+            cx, cy, w, h = (fexact(v) for v in r)
+            c0, c1, r1, r0 = line(X, cx - w / 2), line(X, cx + w / 2), line(Y, cy - h / 2), line(Y, cy + h / 2)
+            if None in (c0, c1, r0, r1):
+                return f"rectangle {r} has a side that is not on a coordinate of the polygon's vertices{tag}"
+            idx.append((r0, r1 - 1, c0, c1 - 1))
+        p = check_instance(rows, idx)
+        if p:
+            return f"decomposition {rects}{tag}: in grid cells (row 0 on top) {p}"
     if obs["rects"] is None:
-        return f"a single-trunk polygon was not decomposed: {obs.get('why')}"
-    area = sum(F(*r[2].as_integer_ratio()) * F(*r[3].as_integer_ratio()) for r in obs["rects"])
-    if any(r[2] <= 0 or r[3] <= 0 for r in obs["rects"]):
-        return "a rectangle of the decomposition has no extent"
-    if area != shoelace(pts):
-        return f"rectangles have area {area}, the polygon has area {shoelace(pts)}"
+        return None
     if obs.get("load_error"):
         return f"the decomposition cannot be loaded as a module: {obs['load_error']}"
+    if obs["stog"] is None:
+        return None                   # not loadable through the reader for a reason outside the property (see load_as_module)
     if not obs["stog"]:
+        if obs.get("absorbed"):
+            return ("create_stog does not recognise the decomposition as a single-trunk orthogon " + ABSORBED +
+                    f" (tolerance {obs['eps']!r}, rectangles {obs['rects']})")
         return "create_stog does not recognise the decomposition as a single-trunk orthogon"
     if obs["locs"][0] != "TRUNK" or any(x not in ("NORTH", "SOUTH", "EAST", "WEST") for x in obs["locs"][1:]):
         return f"create_stog locations {obs['locs']}: trunk not first or a rectangle without a side"
-    # the decomposition itself lists the trunk first: every other rectangle abuts rects[0]
-    def box(r):
-        cx, cy, w, h = (F(*v.as_integer_ratio()) for v in r)
-        return cx - w / 2, cx + w / 2, cy - h / 2, cy + h / 2
-    tx0, tx1, ty0, ty1 = box(obs["rects"][0])
-    for r in obs["rects"][1:]:
-        a0, a1, b0, b1 = box(r)
-        ns = tx0 <= a0 and a1 <= tx1 and (b0 == ty1 or b1 == ty0)
-        ew = ty0 <= b0 and b1 <= ty1 and (a0 == tx1 or a1 == tx0)
-        if not (ns or ew):
-            return f"rectangle {r} does not abut the first rectangle (the trunk) {obs['rects'][0]}"
     return None
 
 
+ABSORBED = "[tolerance absorbed: 1e-12 x smallest side is below half an ulp of a side coordinate]"
+
+
 def failure_key(case, why):
-    return {"m": "C15/grid", "inside": "C15/point-inside"}.get(case["kind"], "C15/polygon")
+    if case["kind"] in ("poly", "gpoly") and why and ABSORBED in why:
+        return "C15/stog-tolerance-absorbed"
+    return {"m": "C15/grid", "t": "C15/grid-text", "inside": "C15/point-inside"}.get(case["kind"], "C15/polygon")
 
 
 def shrink(case):
+    if case["kind"] == "t":
+        text = case["text"]
+        for k in range(len(text)):
+            yield dict(case, text=text[:k] + text[k + 1:], gen="shrunk")
+        for k, c in enumerate(text):
+            if c in SPACES and c != 32:
+                yield dict(case, text=text[:k] + [32] + text[k + 1:], gen="shrunk")
+        return
     if case["kind"] == "m":
         rows = case["rows"]
         if len(rows) > 1:
@@ -542,6 +1191,26 @@ def shrink(case):
         if case.get("repr") != "point":
             yield dict(case, repr="point")
         return
+    if case["kind"] == "gpoly":
+        rows, xs, ys = case["rows"], case["xs"], case["ys"]
+        cands = []
+        if len(rows) > 1:       # drop a row / a column together with one of its two grid lines
+            for k in range(len(rows)):
+                for d in (0, 1):
+                    cands.append(dict(case, rows=rows[:k] + rows[k + 1:], ys=ys[:k + d] + ys[k + d + 1:], gen="shrunk"))
+        if len(rows[0]) > 1:
+            for k in range(len(rows[0])):
+                for d in (0, 1):
+                    cands.append(dict(case, rows=[r[:k] + r[k + 1:] for r in rows], xs=xs[:k + d] + xs[k + d + 1:], gen="shrunk"))
+        for c in cands:         # only shapes whose outline is still one simple polygon
+            if outline([[ch == "1" for ch in r] for r in c["rows"]]) is not None:
+                yield c
+        for flag in ("rev", "closed", "twice"):
+            if case.get(flag):
+                yield dict(case, **{flag: False})
+        if case.get("anchor") is None and case.get("rot"):
+            yield dict(case, rot=0)
+        return
     for s in "NSEW":
         for k in range(len(case[s])):
             yield dict(case, **{s: case[s][:k] + case[s][k + 1:]})
@@ -556,48 +1225,98 @@ def shrink(case):
 
 
 def nontrivial(case):
+    if case["kind"] == "t":
+        return case["text"].count(49) >= 2
     if case["kind"] == "m":
         return sum(r.count("1") for r in case["rows"]) >= 2
     if case["kind"] == "inside":
         return len(case["vs"]) >= 3
+    if case["kind"] == "gpoly":
+        return sum(r.count("1") for r in case["rows"]) >= 2
     return any(case[s] for s in "NSEW")
 
 
 def dist_key(case):
+    if case["kind"] == "t":
+        return "text/" + case.get("gen", "?")
     if case["kind"] == "m":
         g = case.get("gen", "?")
-        return "grid/" + ("exhaustive" if g.startswith("all") else g)
+        if g.startswith("large/"):
+            g = "large/" + g.split("/")[2]
+        return "grid/" + ("exhaustive" if g.startswith("all") else "sampled" if g.startswith("some") else g)
     if case["kind"] == "inside":
         return "point-inside/" + case.get("sub", "?")
+    if case["kind"] == "gpoly":
+        return "polygon/" + case.get("repr", "?") + "/" + ("decimal" if case.get("mode") == "decimal" else case.get("place", "?"))
     return "polygon/" + ("cw" if case.get("rev") else "ccw") + "/" + case.get("repr", "?")
+
+
+def sampled_cases(rng, n, lo, hi):
+    """n matrices drawn uniformly from the shapes with lo < R*C <= hi cells (each shape as often as it has matrices)."""
+    shapes = [(R, C) for R in range(1, hi + 1) for C in range(1, hi + 1) if lo < R * C <= hi]
+    weights = [2 ** (R * C) for R, C in shapes]
+    for _ in range(n):
+        R, C = rng.choices(shapes, weights)[0]
+        s = format(rng.getrandbits(R * C), f"0{R * C}b")
+        yield {"kind": "m", "gen": f"some{R}x{C}", "rows": [s[i * C:(i + 1) * C] for i in range(R)]}
+
+
+def spread(cheap, heavy):
+    """One list with the heavy cases spread evenly among the cheap ones, so that every Coq shard
+    (consecutive cases) costs about the same."""
+    if not heavy:
+        return list(cheap)
+    out, k, step = [], 0, max(1, len(cheap) // len(heavy))
+    for i, h in enumerate(heavy):
+        out.append(h)
+        out += cheap[i * step:(i + 1) * step]
+        k = (i + 1) * step
+    return out + cheap[k:]
 
 
 def run(ctx, out, replay=None):
     quick = ctx.quick()
-    out.rule = ("all 0/1 matrices of every shape up to 4x4 (quick) / every shape with at most 16 cells, the bound of the "
-                "completeness theorem (thorough; R*C <= 20 does not fit the 15 minute budget); random matrices up to 10x10: single-trunk shapes, the same with 1-3 "
-                "flipped cells, holes, disconnected pieces, staircases, iid noise at four densities, full/empty, ragged "
-                "rows; random simple orthogonal single-trunk polygons (dyadic coordinates, both orientations, any "
-                "start vertex, Point or ndarray vertices, open or closed lists); is_point_inside_polygon on such polygons and on "
-                "slanted / self-intersecting vertex lists (three y levels) at cell centres, vertices, edge points and generic "
-                "points; non-trivial = at least two true cells / at least one branch / at least three vertices; distinct by hash")
-    cases = []
+    out.rule = ("all 0/1 matrices of every shape with at most 12 cells plus a uniform sample of the shapes with 13-16 cells "
+                "(quick) / every shape with at most 16 cells (thorough); random matrices up to 10x10: single-trunk "
+                "shapes, the same with 1-3 flipped cells, holes, disconnected pieces, staircases, iid noise at four "
+                "densities, full/empty, ragged rows; LARGE grids with sides up to 40 built as trunk + four side profiles "
+                "(branch lengths 9, 10, 15, 16, 17, 31, 32, 33 and short ones; combs with teeth of distinct heights, ramps, "
+                "blocks up to 33 wide, single arms = long L/T/plus shapes, full sides) then left alone or perturbed (hole "
+                "in a branch, tip removed, cell in a corner quadrant, cell beside a branch, trunk cell removed, random "
+                "flips, far cell), half of them transposed; the same with sides up to 70 and branch lengths 63, 64, 65; thin shapes "
+                "with one arm of 63, 64, 65, 100, 127, 128, 129, 255, 256, 257 cells (tip / inner cell removed, cell beside) in the "
+                "four orientations; part of the large and random grids on a pre-exercised object (instances listed, printed, "
+                "listed again); matrices as TEXT with every separator str.split accepts, "
+                "leading/trailing/multiple separators, non-binary characters; random simple orthogonal single-trunk "
+                "polygons and polygons traced from grid shapes (also not single-trunk: refusal expected), up to 24x24 "
+                "cells, in every input form (Point with floats / ints, list of ndarray rows, 2-D ndarray of float64 / "
+                "float32 / int64 / int32, mixed), both orientations, every start vertex, open or closed, coordinates "
+                "dyadic / integer / decimal, positive / negative / straddling 0 / a corner exactly at (-1,-1), (0,0), ... "
+                "listed last or first / offsets up to 2^20 and 10^6, some decomposed twice from the same object; "
+                "is_point_inside_polygon on such polygons and on slanted / self-intersecting vertex lists (three y "
+                "levels) at cell centres, vertices, edge points and generic points; non-trivial = at least two true "
+                "cells / at least one branch / at least three vertices; distinct by hash")
+    head = []
     if replay and "case" in replay:
-        cases.append(fr.unjson(replay["case"]))
-    cases += fr.load_corpus("C15")
+        head.append(fr.unjson(replay["case"]))
+    head += fr.load_corpus("C15")
+    rng = ctx.rng
     if quick:
-        cases += list(exhaustive_cases(16, 4))
-        nrand, npoly, ninside = 3000, 600, 200
+        cheap = list(exhaustive_cases(12, 12)) + list(sampled_cases(rng, 6000, 12, 16))
+        nrand, npoly, ngpoly, nbig, nprobe, ninside, nlarge, ntext, nhuge, nlong = 3000, 300, 500, 40, 8, 200, 400, 400, 16, 12
     else:
-        cases += list(exhaustive_cases(16, 16))
-        nrand, npoly, ninside = 40000, 6000, 3000
-    # the polygon cases go first: their Coq shards (exact rationals) are the slowest and the
-    # shards are evaluated in parallel in list order
-    for _ in range(npoly):
-        cases.append(gen_poly_case(ctx.rng))
-    for _ in range(ninside):
-        cases.append(gen_inside_case(ctx.rng))
-    for _ in range(nrand):
-        cases.append(gen_matrix_case(ctx.rng))
+        cheap = list(exhaustive_cases(16, 16))
+        nrand, npoly, ngpoly, nbig, nprobe, ninside, nlarge, ntext, nhuge, nlong = 40000, 3000, 3000, 200, 60, 3000, 3000, 3000, 100, 60
+    cheap += [gen_matrix_case(rng) for _ in range(nrand)]
+    cheap += [gen_text_case(rng) for _ in range(ntext)]
+    heavy = [gen_large_case(rng) for _ in range(nlarge)]
+    heavy += [gen_huge_case(rng) for _ in range(nhuge)] + [gen_long_case(rng) for _ in range(nlong)]
+    heavy += [gen_poly_case(rng) for _ in range(npoly)]
+    heavy += [gen_gpoly_case(rng) for _ in range(ngpoly)]
+    heavy += [gen_gpoly_case(rng, big=True) for _ in range(nbig)]
+    heavy += list(gen_probe_cases(rng, nprobe))
+    heavy += [gen_inside_case(rng) for _ in range(ninside)]
+    rng.shuffle(heavy)
+    cases = head + spread(cheap, heavy)
     fr.run_cases(ctx, out, cases, run_impl, to_coq, oracle, failure_key, HEADER,
                  dist_key=dist_key, nontrivial=nontrivial, shard=1000, shrink=shrink)
